@@ -285,6 +285,11 @@ func (p *ParagraphReader) Next() (*Paragraph, error) {
 		lastKey = strings.TrimSpace(els[0])
 		value := strings.TrimSpace(els[1])
 
+		if strings.HasPrefix(lastKey, "#") {
+			/* Only possible behind a stray CR, VT or FF. Written back out,
+			 * such a field would be a comment. */
+			return nil, fmt.Errorf("Bad line: field name '%s' starts with '#'", lastKey)
+		}
 		if _, found := paragraph.Values[lastKey]; found {
 			return nil, fmt.Errorf("Bad line: field '%s' appears twice", lastKey)
 		}
